@@ -50,6 +50,7 @@ class Machine(object):
         self.ipos = 0
         self.value_horizon = None   # optional bit-length horizon: Unspecified beyond it
         self.reads = 0
+        self._k = None
 
     def clone(self):
         m = Machine.__new__(Machine)
@@ -65,6 +66,7 @@ class Machine(object):
         m.ipos = self.ipos
         m.value_horizon = self.value_horizon
         m.reads = self.reads
+        m._k = None
         return m
 
     # ---- observation
